@@ -178,7 +178,16 @@ def run(case):
             bins[0] = [d for d in divisors(shape[0])][-1]
         sll = src.wcs.low_level_wcs
         try:
-            out = src.rebin(tuple(bins))
+            # equivalent spellings of the bin shape (non-integers are rounded, a pixel Quantity is accepted)
+            spell = case["wseed"] % 4
+            arg = tuple(bins)
+            if spell == 1:
+                arg = tuple(b + (0.4 if k % 2 else -0.4) for k, b in enumerate(bins))
+            elif spell == 2:
+                arg = np.array(bins) * u.pix
+            elif spell == 3:
+                arg = np.array([b + (0.3 if k % 2 else -0.3) for k, b in enumerate(bins)]) * u.pix
+            out = src.rebin(arg)
         except Exception as e:
             res["impl"]["err"] = err_kind(e)
             mesh_unequal = any(ec["kind"] == "skymesh" and shape[ec["axis"][0]] // bins[ec["axis"][0]] != shape[ec["axis"][1]] // bins[ec["axis"][1]]
